@@ -22,6 +22,15 @@ func rulePhaseProgress(c *RC) *RuleResult {
 			}
 			for _, s := range c.A.FnSites[f] {
 				fmt.Printf("SITE %s %s %s snaps=%d\n", dn, s.Kind, siteWhat(s), len(s.Snaps))
+				for _, sn := range s.Snaps {
+					var as []string
+					for _, a := range sn.Args {
+						if a != nil {
+							as = append(as, fmt.Sprintf("%s(k%d)", a.S, a.K))
+						}
+					}
+					fmt.Printf("   SNAP args=%v trail={%s}\n", as, sn.Trail)
+				}
 			}
 		}
 	}
